@@ -61,7 +61,7 @@ def index_to_dense(idx, dtype=None):
 
 # --------------------------------------------------------------------------- #
 # value alphabets (python ints)
-ALPHABET_CLASSES = ["small", "gapped", "b8", "b16", "b31", "b32", "b63", "neg", "negbig", "mixed"]
+ALPHABET_CLASSES = ["small", "gapped", "b8", "b16", "b31", "b32", "b63", "neg", "negbig", "mixed", "sbound"]
 
 
 def alphabet(rng, cls, kmin=1, kmax=8):
@@ -84,6 +84,12 @@ def alphabet(rng, cls, kmin=1, kmax=8):
         vals = [-1, 0, 1, -128, -129, 127, 128, -2][:max(k, 2)]
     elif cls == "negbig":
         vals = [-(2 ** 31) - 1, -(2 ** 31), -(2 ** 63), 2 ** 31, -1, 0, -32769, 32768][:max(k, 3)]
+    elif cls == "sbound":
+        # a small negative minimum with a maximum exactly on / next to a signed-width boundary (and the mirror image)
+        b = pick(rng, [128, 32768, 2 ** 31])
+        hi = pick(rng, [b - 1, b, b, b + 1])
+        lo = pick(rng, [-1, -2, -b, -b - 1, -b + 1])
+        vals = [lo, hi, 0, 1, 5][:max(k, 2)]
     elif cls == "mixed":
         pool = [0, 1, 2, 3, 255, 256, 65535, 65536, -1, -129, 2 ** 31, 2 ** 32, 2 ** 40, -(2 ** 40), 12, 99]
         vals = sorted(set(pick(rng, pool) for _ in range(max(k, 2))))
